@@ -141,6 +141,7 @@ type GInput struct {
 	Dims    []Dim
 	NoType  bool // omit the type altogether
 	NoShape bool // type without shape
+	NoElem  bool // tensor type whose elem_type is left out (0 = UNDEFINED); the shape is declared all the same
 }
 
 // GInit is an initializer.
@@ -180,6 +181,9 @@ func ValueInfo(in GInput) *onnx.ValueInfoProto {
 		return vi
 	}
 	tt := &onnx.TypeProto_Tensor{ElemType: in.DT.OnnxCode()}
+	if in.NoElem {
+		tt.ElemType = 0
+	}
 	if !in.NoShape {
 		sh := &onnx.TensorShapeProto{}
 		for _, d := range in.Dims {
